@@ -9,7 +9,7 @@ from ..cfg import cfg_of, handler_names
 from ..effprops import engine
 from ..index import AnalysisError, function_stmts, parent, walk_no_nested
 from ..roles import schema_backend_classes
-from ..util import callee_last, calls_in, enclosing_stmt, ifexp_chain, kw, names_in, path_condition, resolve_local, show_condition, txt
+from ..util import assignment_leaves, callee_last, calls_in, enclosing_stmt, ifexp_chain, kw, names_in, path_condition, resolve_local, show_condition, txt
 
 EXPLANATION = (
     "Static analysis of the error plumbing (CFG must-pass-through, handler census, raise-sets over the resolved call "
@@ -300,7 +300,14 @@ def r5_counts(ctx):
             while isinstance(v, ast.Call) and callee_last(v) == "lit" and v.args:
                 v = v.args[0]
             v = resolve_local(f.node, v)
-            chains.add(tuple(ifexp_chain(v, loopvars)))
+            if isinstance(v, ast.Name):
+                leaves = assignment_leaves(f.node, v.id, loopvars)
+                if not leaves:
+                    raise AnalysisError(f"{q}: `{v.id}` flows into the 'check' field but is never assigned")
+                chains.add(tuple(sorted((tuple(sorted(c)), val) for c, val in leaves)))
+            else:
+                leaves = set()
+                chains.add(tuple(sorted((tuple(sorted(c)), val) for c, val in _expr_leaves(v, loopvars))))
         if not chains:
             raise AnalysisError(f"{q}: no value flows into the 'check' field of the failure cases")
         forms[q] = chains
@@ -308,6 +315,23 @@ def r5_counts(ctx):
     ok = len(vals) == 2 and len(vals[0]) == 1 and vals[0] == vals[1]
     ctx.ob("R5", "pandera/backends", "check identifier derived by the same chain in pandas and polars reports", ok,
            "identical decision chains" if ok else f"{ {k.split('::')[-1]: sorted(v) for k, v in forms.items()} }")
+
+
+def _expr_leaves(v, mapping):
+    from ..util import alpha, canon_atom, strip_not
+    out = set()
+
+    def rec(e, conds):
+        if isinstance(e, ast.IfExp):
+            t = alpha(e.test, mapping) if mapping else e.test
+            a, pol = strip_not(t)
+            ct, p2 = canon_atom(a)
+            rec(e.body, conds | {(ct, pol == p2)})
+            rec(e.orelse, conds | {(ct, not (pol == p2))})
+        else:
+            out.add((frozenset(conds), txt(alpha(e, mapping) if mapping else e)))
+    rec(v, frozenset())
+    return out
 
 
 def r6_fences(ctx):
